@@ -76,6 +76,9 @@ func resetGlobals() {
 	if !pristineTaken {
 		for _, p := range g {
 			pv := reflect.ValueOf(p)
+			if pp := pv.Elem().Type().PkgPath(); pp == "sync" || pp == "sync/atomic" {
+				continue // synchronisation objects are not copied
+			}
 			pristine = append(pristine, globalSnap{pv, deepCopyValue(pv.Elem())})
 		}
 		pristineDigest = stateDigest(g...)
